@@ -69,11 +69,29 @@ def spec_sender_ok(filters, s):
 
 # ----------------------------------------------------------------------------- spec: state identity
 
-def spec_identity(comp):
+def spec_constraints(comp):
+    """Positions of the path conditions that constrain the symbols held in the state
+    (Spec/PathSliceSpec.v `constrains`): they mention such a symbol, or share a symbol with a
+    condition that does -- in either order.  Computed from the symbols of the terms."""
+    syms = [set(s) for s in comp["cond_syms"]]
+    reach, out = set(comp["state_syms"]), set()
+    changed = True
+    while changed:
+        changed = False
+        for i, s in enumerate(syms):
+            if i not in out and s & reach:
+                out.add(i)
+                reach |= s
+                changed = True
+    return out
+
+
+def spec_identity(comp, by_slice=False):
     """Identity of a symbolic state at a transaction boundary (Spec/StateIdSpec.v same_identity):
     balance term, code, storage terms per account (key words, value term) and the SET of path
-    conditions that constrain state variables (those at the positions of the slice)."""
-    sl = set(comp["sliced"] or ())
+    conditions that constrain the symbols held in the state (by_slice: the conditions at the
+    positions of halmos' slice instead)."""
+    sl = set(comp["sliced"] or ()) if by_slice else spec_constraints(comp)
     cons = frozenset(c for i, c in enumerate(comp["conds"]) if i in sl)
     stor = tuple((a, tuple((tuple(k) if isinstance(k, list) else (k,), v) for k, v in items)) for a, items in comp["storage"])
     return (comp["balance"], tuple(map(tuple, comp["code"])), stor, cons)
@@ -539,6 +557,13 @@ def corpus():
     # a constraint of the state through the dependency closure of the slice
     for side, b in (("lo", 1), ("hi", 2)):
         add(f"branch-cond-related-{side}", [{"name": "C0", "funcs": [{"name": "set", "kind": "setv_rel", "slot": 0, "k": 9, "payable": True},
+                                                                     {"name": "fireS", "kind": "xset_if", "slot": 0, "a": 5, "t": 1, "b": 1},
+                                                                     {"name": "fireB", "kind": "xset_if", "slot": 0, "a": 50, "t": 1, "b": 2}]}],
+            {"kind": "slot_ne", "addr": C0, "slot": 1, "k": b}, 2)
+    # ... the same with the tying condition FIRST and the branch on msg.value after it: the branch condition is
+    # related to the stored symbol only through an EARLIER condition
+    for side, b in (("lo", 1), ("hi", 2)):
+        add(f"branch-cond-forward-{side}", [{"name": "C0", "funcs": [{"name": "set", "kind": "setv_rel", "slot": 0, "k": 9, "payable": True, "rel_first": True},
                                                                      {"name": "fireS", "kind": "xset_if", "slot": 0, "a": 5, "t": 1, "b": 1},
                                                                      {"name": "fireB", "kind": "xset_if", "slot": 0, "a": 50, "t": 1, "b": 2}]}],
             {"kind": "slot_ne", "addr": C0, "slot": 1, "k": b}, 2)
